@@ -264,6 +264,33 @@ func runC12(t *testing.T, c *closeCase) (res c12Result) {
 				checkClosed(e, "after its Close returned")
 			}
 		}
+		// Every Close puts a FIN on the transport unless the peer's FIN came
+		// first ("the peer is told by a FIN when the transport still works"):
+		// the links accept every packet handed to them (what they then do to
+		// it is the script's business and recorded in the trace), so the
+		// closer's FIN - sent by this Close or by an earlier one of the
+		// connection's own loops - must be in the trace.
+		if res.violation == "" {
+			finSent, finGot := map[string]bool{}, map[string]bool{}
+			for _, e := range env.Trace.Snapshot() {
+				if e.Type != "FIN" {
+					continue
+				}
+				sender := map[string]string{"c2s": "client", "s2c": "server"}[e.Dir]
+				rcpt := map[string]string{"c2s": "server", "s2c": "client"}[e.Dir]
+				if e.Ev == "send" {
+					finSent[sender] = true
+				}
+				if e.Ev == "recv" {
+					finGot[rcpt] = true
+				}
+			}
+			for _, e := range eps {
+				if closedBy[e.name] && !finSent[e.name] && !finGot[e.name] {
+					res.violation = fmt.Sprintf("%s: Close returned without a FIN having been handed to the transport (and the peer had not sent one): the peer is not told", e.name)
+				}
+			}
+		}
 		// The peer is told by a FIN when the transport works: its calls fail
 		// within one latency (+slack) of the Close. Only asserted when the
 		// link was reliable (no scripted fault left, not silent) at that time.
